@@ -839,6 +839,60 @@ def t_argkw(src, rel=None):
     return ast.unparse(tree) + "\n"
 
 
+class _DictCall(ast.NodeTransformer):
+    """{"k": v, ...} (all keys identifier strings) -> dict(k=v, ...)   (same evaluation order)"""
+    def visit_Dict(self, n):
+        import keyword
+        self.generic_visit(n)
+        if n.keys and all(isinstance(k, ast.Constant) and isinstance(k.value, str) and k.value.isidentifier() and not keyword.iskeyword(k.value)
+                          for k in n.keys) and len(set(k.value for k in n.keys)) == len(n.keys):
+            return ast.copy_location(ast.Call(func=ast.Name(id="dict", ctx=ast.Load()), args=[],
+                                              keywords=[ast.keyword(arg=k.value, value=v) for k, v in zip(n.keys, n.values)]), n)
+        return n
+
+
+class _BaseSuper(ast.NodeTransformer):
+    """in a class with exactly one base B:  B.m(self, a, ...) inside a direct method  ->  super().m(a, ...)"""
+    def __init__(self):
+        self.stack = []
+        self.in_method = False
+
+    def visit_ClassDef(self, n):
+        base = n.bases[0].id if len(n.bases) == 1 and isinstance(n.bases[0], ast.Name) and not n.keywords else None
+        self.stack.append(base)
+        old = self.in_method
+        self.in_method = False
+        self.generic_visit(n)
+        self.in_method = old
+        self.stack.pop()
+        return n
+
+    def visit_FunctionDef(self, n):
+        old = self.in_method
+        decos = [d.id if isinstance(d, ast.Name) else getattr(d, "attr", "") for d in n.decorator_list]
+        self.in_method = bool(self.stack) and not old and not decos and bool(n.args.args) and n.args.args[0].arg == "self"
+        if self.in_method:
+            self.generic_visit(n)
+        self.in_method = old
+        return n
+
+    def visit_Lambda(self, n):
+        return n
+
+    def visit_ListComp(self, n):
+        return n
+
+    visit_GeneratorExp = visit_SetComp = visit_DictComp = visit_ListComp
+
+    def visit_Call(self, n):
+        self.generic_visit(n)
+        if self.in_method and self.stack and self.stack[-1] and isinstance(n.func, ast.Attribute) and isinstance(n.func.value, ast.Name) \
+                and n.func.value.id == self.stack[-1] and n.args and isinstance(n.args[0], ast.Name) and n.args[0].id == "self":
+            sup = ast.Call(func=ast.Name(id="super", ctx=ast.Load()), args=[], keywords=[])
+            return ast.copy_location(ast.Call(func=ast.Attribute(value=sup, attr=n.func.attr, ctx=ast.Load()), args=n.args[1:], keywords=n.keywords), n)
+        return n
+
+
 def _mk(cls):
     def t(src):
         tree = cls().visit(ast.parse(src))
@@ -850,12 +904,14 @@ def _mk(cls):
 t_ifexp2stmt, t_stmt2ifexp, t_tuplesplit, t_tuplemerge = _mk(_IfExp2Stmt), _mk(_Stmt2IfExp), _mk(_TupleSplit), _mk(_TupleMerge)
 t_andsplit, t_demorgan, t_loopunpack, t_rettemp = _mk(_AndSplit), _mk(_DeMorgan), _mk(_LoopUnpack), _mk(_RetTemp)
 t_whiletrue, t_compr2loop, t_aliasintro = _mk(_WhileTrue), _mk(_Compr2Loop), _mk(_AliasIntro)
+t_dictcall, t_basesuper = _mk(_DictCall), _mk(_BaseSuper)
 
 
 TRANSFORMS = {"ifexp2stmt": t_ifexp2stmt, "stmt2ifexp": t_stmt2ifexp, "tuplesplit": t_tuplesplit, "tuplemerge": t_tuplemerge,
               "andsplit": t_andsplit, "demorgan": t_demorgan, "loopunpack": t_loopunpack, "rettemp": t_rettemp,
               "whiletrue": t_whiletrue, "compr2loop": t_compr2loop, "aliasintro": t_aliasintro, "argkw": t_argkw,
               "unparse": t_unparse, "rename": t_rename, "augassign": t_augassign, "ifswap": t_ifswap,
+              "dictcall": t_dictcall, "basesuper": t_basesuper,
               "elsedrop": t_elsedrop, "passins": t_passins, "py3": t_py3, "noise": t_noise, "cmpflip": t_cmpflip, "aliasinline": t_aliasinline}
 
 
